@@ -41,6 +41,68 @@ pub fn classify(point: &[u8; 32]) -> (bool, bool, bool, bool) {
     (twist, sub, noncanon, point[31] & 0x80 != 0)
 }
 
+/// key exchange with `p` as the peer's public key, `n` as our secret key and `my_pk` as our public key.
+/// libsodium hashes the caller-supplied public keys as given (it never recomputes them from the secret
+/// key), so `my_pk` is also exercised with values that are NOT the base-point multiple of `n`.
+fn check_kx(my_pk: [u8; 32], n: [u8; 32], p: [u8; 32], shared_zero: bool, own: &str) -> Result<(), String> {
+    // key exchange with `p` as the peer's public key and n as our secret key
+    let refc = sodium::kx_client(&my_pk, &n, &p);
+    let refs = sodium::kx_server(&my_pk, &n, &p);
+    if refc.is_none() != shared_zero || refs.is_none() != shared_zero {
+        return Err("harness: libsodium kx refusal does not coincide with an all-zero shared secret".into());
+    }
+    let (mut rx, mut tx) = ([0u8; 32], [0u8; 32]);
+    let dc = crypto_kx_client_session_keys(&mut rx, &mut tx, &my_pk, &n, &p);
+    match (&dc, &refc) {
+        (Ok(()), Some((rrx, rtx))) => {
+            if rx != *rrx || tx != *rtx {
+                return Err(format!("crypto_kx_client_session_keys(client_pk={} [{own}], server_pk={}) keys differ from libsodium", hx(&my_pk), hx(&p)));
+            }
+        }
+        (Err(_), None) => {}
+        (Ok(()), None) => return Err(format!("crypto_kx_client_session_keys accepted server key {} whose shared secret is all-zero (libsodium refuses)", hx(&p))),
+        (Err(e), Some(_)) => return Err(format!("crypto_kx_client_session_keys refused a peer key libsodium accepts: {e:?}")),
+    }
+    let (mut srx, mut stx) = ([0u8; 32], [0u8; 32]);
+    let ds = crypto_kx_server_session_keys(&mut srx, &mut stx, &my_pk, &n, &p);
+    match (&ds, &refs) {
+        (Ok(()), Some((rrx, rtx))) => {
+            if srx != *rrx || stx != *rtx {
+                return Err(format!("crypto_kx_server_session_keys(server_pk={} [{own}], client_pk={}) keys differ from libsodium", hx(&my_pk), hx(&p)));
+            }
+        }
+        (Err(_), None) => {}
+        (Ok(()), None) => return Err(format!("crypto_kx_server_session_keys accepted client key {} whose shared secret is all-zero (libsodium refuses)", hx(&p))),
+        (Err(e), Some(_)) => return Err(format!("crypto_kx_server_session_keys refused a peer key libsodium accepts: {e:?}")),
+    }
+    // object API
+    let kp = KeyPair::<StackByteArray<32>, StackByteArray<32>>::from_slices(&my_pk, &n).map_err(|e| format!("{e:?}"))?;
+    let peer = StackByteArray::<32>::from(p);
+    let oc: Result<Session<StackByteArray<32>>, _> = Session::new_client(&kp, &peer);
+    let os: Result<Session<StackByteArray<32>>, _> = kp.kx_new_server_session(&peer);
+    match (&oc, &refc) {
+        (Ok(s), Some((rrx, rtx))) => {
+            if s.rx_as_array() != rrx || s.tx_as_array() != rtx {
+                return Err(format!("kx::Session::new_client keys differ from libsodium (own public key {own})"));
+            }
+        }
+        (Err(_), None) => {}
+        (Ok(_), None) => return Err("kx::Session::new_client accepted a peer key whose shared secret is all-zero".into()),
+        (Err(e), Some(_)) => return Err(format!("kx::Session::new_client refused a valid peer key: {e:?}")),
+    }
+    match (&os, &refs) {
+        (Ok(s), Some((rrx, rtx))) => {
+            if s.rx_as_slice() != rrx || s.tx_as_slice() != rtx {
+                return Err(format!("KeyPair::kx_new_server_session keys differ from libsodium (own public key {own})"));
+            }
+        }
+        (Err(_), None) => {}
+        (Ok(_), None) => return Err("KeyPair::kx_new_server_session accepted a peer key whose shared secret is all-zero".into()),
+        (Err(e), Some(_)) => return Err(format!("KeyPair::kx_new_server_session refused a valid peer key: {e:?}")),
+    }
+    Ok(())
+}
+
 pub fn check(c: &Case) -> Result<Info, String> {
     let n = a32(&c.scalar)?;
     let p = a32(&c.point)?;
@@ -92,64 +154,36 @@ pub fn check(c: &Case) -> Result<Info, String> {
     if pc.as_slice() != want_k || pc2.as_slice() != want_k {
         return Err("PrecalcSecretKey::precalculate / KeyPair::precalculate differ from HSalsa20(X25519)".into());
     }
-    // key exchange with `p` as the peer's public key and n as our secret key
-    let my_pk = b;
-    let shared_zero = model == [0u8; 32];
-    let refc = sodium::kx_client(&my_pk, &n, &p);
-    let refs = sodium::kx_server(&my_pk, &n, &p);
-    if refc.is_none() != shared_zero || refs.is_none() != shared_zero {
-        return Err("harness: libsodium kx refusal does not coincide with an all-zero shared secret".into());
+    // key exchange with `p` as the peer's public key and n as our secret key; our own public key is
+    // first the honest one, then a value unrelated to the secret key
+    check_kx(b, n, p, model == [0u8; 32], "honest")?;
+    let mut other_pk = [0u8; 32];
+    for i in 0..32 {
+        other_pk[i] = p[31 - i] ^ n[i] ^ 0x5a;
     }
-    let (mut rx, mut tx) = ([0u8; 32], [0u8; 32]);
-    let dc = crypto_kx_client_session_keys(&mut rx, &mut tx, &my_pk, &n, &p);
-    match (&dc, &refc) {
-        (Ok(()), Some((rrx, rtx))) => {
-            if rx != *rrx || tx != *rtx {
-                return Err(format!("crypto_kx_client_session_keys(server_pk={}) keys differ from libsodium", hx(&p)));
-            }
-        }
-        (Err(_), None) => {}
-        (Ok(()), None) => return Err(format!("crypto_kx_client_session_keys accepted server key {} whose shared secret is all-zero (libsodium refuses)", hx(&p))),
-        (Err(e), Some(_)) => return Err(format!("crypto_kx_client_session_keys refused a peer key libsodium accepts: {e:?}")),
-    }
-    let (mut srx, mut stx) = ([0u8; 32], [0u8; 32]);
-    let ds = crypto_kx_server_session_keys(&mut srx, &mut stx, &my_pk, &n, &p);
-    match (&ds, &refs) {
-        (Ok(()), Some((rrx, rtx))) => {
-            if srx != *rrx || stx != *rtx {
-                return Err(format!("crypto_kx_server_session_keys(client_pk={}) keys differ from libsodium", hx(&p)));
-            }
-        }
-        (Err(_), None) => {}
-        (Ok(()), None) => return Err(format!("crypto_kx_server_session_keys accepted client key {} whose shared secret is all-zero (libsodium refuses)", hx(&p))),
-        (Err(e), Some(_)) => return Err(format!("crypto_kx_server_session_keys refused a peer key libsodium accepts: {e:?}")),
-    }
-    // object API
-    let peer = StackByteArray::<32>::from(p);
-    let oc: Result<Session<StackByteArray<32>>, _> = Session::new_client(&kp, &peer);
-    let os: Result<Session<StackByteArray<32>>, _> = kp.kx_new_server_session(&peer);
-    match (&oc, &refc) {
-        (Ok(s), Some((rrx, rtx))) => {
-            if s.rx_as_array() != rrx || s.tx_as_array() != rtx {
-                return Err("kx::Session::new_client keys differ from libsodium".into());
-            }
-        }
-        (Err(_), None) => {}
-        (Ok(_), None) => return Err("kx::Session::new_client accepted a peer key whose shared secret is all-zero".into()),
-        (Err(e), Some(_)) => return Err(format!("kx::Session::new_client refused a valid peer key: {e:?}")),
-    }
-    match (&os, &refs) {
-        (Ok(s), Some((rrx, rtx))) => {
-            if s.rx_as_slice() != rrx || s.tx_as_slice() != rtx {
-                return Err("KeyPair::kx_new_server_session keys differ from libsodium".into());
-            }
-        }
-        (Err(_), None) => {}
-        (Ok(_), None) => return Err("KeyPair::kx_new_server_session accepted a peer key whose shared secret is all-zero".into()),
-        (Err(e), Some(_)) => return Err(format!("KeyPair::kx_new_server_session refused a valid peer key: {e:?}")),
-    }
+    check_kx(other_pk, n, p, model == [0u8; 32], "unrelated to the secret key")?;
     let (twist, sub, noncanon, highbit) = classify(&p);
     Ok(Info { twist, prime_subgroup: sub, noncanonical: noncanon, highbit, sodium_refused: sod.is_none() })
+}
+
+/// cheap differential used for the dense neighbourhoods of the special encodings: dryoc == libsodium
+/// (libsodium's refusal == all-zero output); the bigint model is applied to every 16th case
+pub fn check_light(n: &[u8; 32], p: &[u8; 32], with_model: bool) -> Result<(), String> {
+    let mut q = [0u8; 32];
+    crypto_scalarmult(&mut q, n, p);
+    let want = sodium::scalarmult(n, p).unwrap_or([0u8; 32]);
+    if with_model && models::x25519(n, p) != want {
+        return Err("harness: libsodium != RFC 7748 model".into());
+    }
+    if q != want {
+        return Err(format!("crypto_scalarmult(n={}, p={}) = {} but libsodium / X25519 = {}", hx(n), hx(p), hx(&q), hx(&want)));
+    }
+    if let Some(k) = sodium::box_beforenm(p, n) {
+        if crypto_box_beforenm(p, n) != k {
+            return Err(format!("crypto_box_beforenm(pk={}, sk={}) differs from libsodium", hx(p), hx(n)));
+        }
+    }
+    Ok(())
 }
 
 /// honest pair: DH commutes, client rx/tx == server tx/rx
@@ -263,7 +297,13 @@ pub fn check_locked(c: &Case) -> Result<(), String> {
     if k2.as_slice() != want_k {
         return Err("PrecalcSecretKey::precalculate_readonly_locked differs from HSalsa20(X25519)".into());
     }
-    let my_pk = sodium::scalarmult_base(&n);
+    // our own public key: honest in half of the cases, unrelated to the secret key in the others
+    let mut my_pk = sodium::scalarmult_base(&n);
+    if p[0] & 1 == 1 {
+        for i in 0..32 {
+            my_pk[i] = p[31 - i] ^ n[i] ^ 0x5a;
+        }
+    }
     let kp: KeyPair<Locked<HeapByteArray<32>>, Locked<HeapByteArray<32>>> = KeyPair { public_key: HeapByteArray::<32>::from_slice_into_locked(&my_pk).map_err(de)?, secret_key: HeapByteArray::<32>::from_slice_into_locked(&n).map_err(de)? };
     let k3 = kp.precalculate_locked(&p).map_err(io)?;
     if k3.as_slice() != want_k {
@@ -324,7 +364,7 @@ pub fn run(ctx: &mut Ctx) -> Result<(), Violation> {
         ctx.rule = "nightly sub-run: special point table x scalars and random pairs through locked / read-only locked / heap containers (PrecalcSecretKey::precalculate_locked, precalculate_readonly_locked, KeyPair::precalculate_locked, kx::Session over Locked and Heap keys) against the RFC 7748 model and libsodium".into();
         return run_nightly_part(ctx);
     }
-    ctx.rule = "Scalars: random, 0, 0xff.., clamped min/max, only-clamped-away bits, single bits, L, 8L and neighbours. Points: uniformly random 32-byte encodings (proptest), the complete table of low-order u (0, 1, both order-8 u, p-1), non-canonical aliases p..p+18 and 2^255-1, u=2, 9, p±2, each with bit 255 clear and set; RFC 7748 iterated vectors. Entry points: crypto_scalarmult, crypto_scalarmult_base, crypto_box_beforenm, PrecalcSecretKey/KeyPair::precalculate, crypto_kx_{client,server}_session_keys, kx::Session::new_client, KeyPair::kx_new_server_session. Oracle: RFC 7748 Montgomery ladder on BigUint for every input; libsodium wherever it returns 0 (and its refusals must coincide with an all-zero model output); beforenm == HSalsa20(0, X25519); kx keys == libsodium's and dryoc returns Err exactly when libsodium refuses (all-zero shared secret); honest pairs: DH commutes, client rx/tx == server tx/rx. Non-trivial: point outside the prime-order subgroup (twist or torsion component, decided by the model) or non-canonical / high-bit encoding; distinct = hash(scalar, point).".into();
+    ctx.rule = "Scalars: random, 0, 0xff.., clamped min/max, only-clamped-away bits, single bits, L, 8L and neighbours. Points: uniformly random 32-byte encodings (proptest), every single-byte replacement of every table entry (dense neighbourhoods; libsodium differential, model on every 16th), the complete table of low-order u (0, 1, both order-8 u, p-1), non-canonical aliases p..p+18 and 2^255-1, u=2, 9, p±2, each with bit 255 clear and set; RFC 7748 iterated vectors. Entry points: crypto_scalarmult, crypto_scalarmult_base, crypto_box_beforenm, PrecalcSecretKey/KeyPair::precalculate, crypto_kx_{client,server}_session_keys, kx::Session::new_client, KeyPair::kx_new_server_session. Oracle: RFC 7748 Montgomery ladder on BigUint for every input; libsodium wherever it returns 0 (and its refusals must coincide with an all-zero model output); beforenm == HSalsa20(0, X25519); kx keys == libsodium's and dryoc returns Err exactly when libsodium refuses (all-zero shared secret); honest pairs: DH commutes, client rx/tx == server tx/rx. Non-trivial: point outside the prime-order subgroup (twist or torsion component, decided by the model) or non-canonical / high-bit encoding; distinct = hash(scalar, point).".into();
     ctx.assumptions = vec!["RFC 7748 BigUint ladder pinned by the RFC §5.2 vectors at start-up".into()];
     let seed = ctx.seed;
     // special table x scalars
@@ -348,6 +388,35 @@ pub fn run(ctx: &mut Ctx) -> Result<(), Violation> {
         ev.eval(1);
         let info = check(c).map_err(|m| Violation::new("C05", "x25519", m, serde_json::to_value(c).unwrap()))?;
         record(ev, c, &info, name);
+        Ok(())
+    })?;
+    // dense neighbourhoods of the special encodings: every single-byte replacement (32 x 255) of each table
+    // entry, so that a special-case path keyed on *part* of an encoding (a prefix compare, a masked compare,
+    // a table lookup on some bytes) meets inputs that agree with the special value everywhere but one byte
+    let nb_scalars: Vec<[u8; 32]> = (0..ctx.tier.pick(1usize, 4)).map(|i| Fill::new(seed, &format!("C05:nb:{i}")).arr()).collect();
+    let nb_items: Vec<usize> = (0..specials.len()).collect();
+    let specials_ref = &specials;
+    let nb_scalars_ref = &nb_scalars;
+    ctx.par_each(&nb_items, |_, &si, ev| {
+        let (base, name) = &specials_ref[si];
+        let mut k = 0u32;
+        for pos in 0..32 {
+            for val in 0..=255u8 {
+                if val == base[pos] {
+                    continue;
+                }
+                let mut p = *base;
+                p[pos] = val;
+                for n in nb_scalars_ref {
+                    k += 1;
+                    ev.eval(1);
+                    ev.class("single-byte neighbour of a special encoding");
+                    ev.nontrivial(fnv64(&[n, &p]));
+                    ev.sample(&format!("neighbour-{}", si % 3), || json!({"scalar": hx(n), "point": hx(&p), "kind": format!("{name} with byte {pos} replaced by {val:#04x}")}));
+                    check_light(n, &p, k % 16 == 0).map_err(|m| Violation::new("C05", "x25519-light", m, json!({"scalar": hx(n), "point": hx(&p)})))?;
+                }
+            }
+        }
         Ok(())
     })?;
     // honest pairs
